@@ -451,6 +451,24 @@ def check_C08(chk):
                                "wall_s": round(r["wall"], 1)})
             with open(cases, "a") as f:
                 f.write(open(part).read())
+    # unbounded lengths: Apalache discharges the inductive invariant of the chain for arbitrary header and payload
+    # lengths, arbitrary buffer sizes and deliveries; the payload-first deviation and a non-vacuity query are refuted
+    ad = os.path.join(SPEC, "apalache")
+    done = []
+    for label, args in [("init", ["--cinit=ConstInit", "--init=Init", "--inv=IndInv", "--length=0"]),
+                        ("step", ["--cinit=ConstInit", "--init=IndInit", "--inv=IndInv", "--length=1"]),
+                        ("safety", ["--cinit=ConstInit", "--init=IndInit", "--inv=Safety", "--length=0"])]:
+        w = apalache_check("C08", "payload_" + label, ad, "PayloadInd.tla", args)
+        done.append({"obligation": label, "args": " ".join(args), "wall_s": round(w, 1)})
+    refuted = []
+    for label, args in [("deviation payload-first (step)", ["--cinit=ConstInit", "--init=IndInit", "--next=DevNext", "--inv=IndInv", "--length=1"]),
+                        ("non-vacuity of IndInit", ["--cinit=ConstInit", "--init=IndInit", "--inv=NotFinishedLong", "--length=0"])]:
+        w = apalache_refute("C08", "payload_refute", ad, "PayloadInd.tla", args)
+        refuted.append({"query": label, "args": " ".join(args), "wall_s": round(w, 1)})
+    chk.extra["apalache_inductive_invariant"] = {
+        "module": "spec/apalache/PayloadInd.tla", "discharged": done, "refuted_as_expected": refuted,
+        "statement": "for arbitrary lengths of header+attributes and payload, arbitrary consumer buffers and source deliveries: "
+                     "the consumer receives the octets of header+attributes then payload in order, end-of-stream only after all of them"}
     out = os.path.join(wd, "run")
     harness("vh", ["payload", "--out", out, "--seed", chk.seed, "--tier", chk.tier, "--cases", cases,
                    "--limit", 60000 if q else 300000], timeout=7200)
